@@ -40,28 +40,33 @@ theorem flattenedSum_zeros (ds : List Expr) (h : ∀ x ∈ ds, x = zero) : flatt
   unfold flattenedSum
   rw [flattenedSumLoop_zeros _ ds h]
 
-theorem flattenedProductLoop_zero : ∀ (pre : List Expr) (fuel : Nat) (rest done : List Expr),
-    pre.length < fuel → flattenedProductLoop fuel (pre ++ zero :: rest) done = Option.none
-  | [], fuel + 1, rest, done, _ => by
+theorem flattenedProductLoop_zero : ∀ (fuel : Nat) (pre rest done : List Expr),
+    Expr.sizeL pre < fuel → flattenedProductLoop fuel (pre ++ zero :: rest) done = Option.none
+  | 0, _, _, _, h => by omega
+  | fuel + 1, [], rest, done, _ => by
       have hz : zero.isZero = true := rfl
       simp only [List.nil_append, flattenedProductLoop, hz, if_true]
-  | a :: pre, fuel + 1, rest, done, hlt => by
-      have hlt' : pre.length < fuel := by simpa using hlt
+  | fuel + 1, a :: pre, rest, done, hlt => by
+      have hp := Expr.size_pos a
+      simp only [Expr.sizeL] at hlt
       simp only [List.cons_append, flattenedProductLoop]
       split
       · rfl
       · split
-        · exact flattenedProductLoop_zero pre fuel rest done hlt'
+        · exact flattenedProductLoop_zero fuel pre rest done (by omega)
         · split
-          · rw [List.append_assoc, List.cons_append]
-            exact flattenedProductLoop_zero pre fuel _ done hlt'
-          · exact flattenedProductLoop_zero pre fuel rest _ hlt'
+          · rename_i cs _ _
+            rw [← List.append_assoc]
+            exact flattenedProductLoop_zero fuel (cs ++ pre) rest done
+              (by simp only [Expr.sizeL_append, Expr.size] at hlt ⊢; omega)
+          · exact flattenedProductLoop_zero fuel pre rest _ (by omega)
 
 /-- `flattened_product` of factors one of which is the literal `0` is the literal `0` (the factors
-before it are looked at first; children of nested products are appended at the end of the queue) -/
+before it are looked at first; children of nested products among them are spliced in place, so the
+zero is reached after everything that stands before it has been taken apart) -/
 theorem flattenedProduct_zero (pre cs : List Expr) : flattenedProduct (pre ++ zero :: cs) = zero := by
   unfold flattenedProduct
-  rw [flattenedProductLoop_zero pre _ cs [] (by simp only [List.length_append, List.length_cons]; omega)]
+  rw [flattenedProductLoop_zero _ pre cs [] (by simp only [Expr.sizeL_append]; omega)]
 
 theorem mulD_zero (fm : Expr) : mulD fm zero = .ret zero := by
   unfold mulD
